@@ -70,6 +70,7 @@ func (c15) Gen(r *sim.Rand, c *sim.Case, tier string) {
 		b = append(b, li(1))
 	}
 	notes := 0
+	var headTexts []sim.Str
 	n := r.Range(3, 25)
 	tocMax := 0
 	for len(a) < n {
@@ -85,7 +86,17 @@ func (c15) Gen(r *sim.Rand, c *sim.Case, tier string) {
 				a = append(a, sim.Op{K: r.Pick("rmfn", "rmen"), S: []sim.Str{sim.Str(id)}})
 			}
 		case x < 16:
-			a = append(a, sim.Op{K: "heading", S: []sim.Str{text()}, I: []int{r.Range(1, 9)}})
+			// heading texts may repeat (an "Overview" under two chapters) or differ only in space vs underscore
+			tag++
+			ht := sim.Str(fmt.Sprintf("Sec %d⟦%d⟧", tag%4, tag))
+			if len(headTexts) > 0 && r.Chance(0.3) {
+				ht = headTexts[r.Intn(len(headTexts))]
+				if r.Chance(0.3) {
+					ht = sim.Str(strings.ReplaceAll(string(ht), " ", "_"))
+				}
+			}
+			headTexts = append(headTexts, ht)
+			a = append(a, sim.Op{K: "heading", S: []sim.Str{ht}, I: []int{r.Range(1, 9)}})
 		case x < 17:
 			if tocMax == 0 {
 				tocMax = r.Range(1, 9)
